@@ -191,6 +191,27 @@ TablesMatchWhy(C, LS, T) ==
 TablesMatch(C, LS, T) == TablesMatchWhy(C, LS, T).ok
 
 (***************************************************************************)
+(* The LALR(1) tables over an arbitrary but fixed numbering of the states, *)
+(* as functions: act[<<state, quasi-terminal>>] = <<kind, arg>>,           *)
+(* go[<<state, nonterminal>>] = target or -1.  cf says whether the         *)
+(* automaton is conflict-free (otherwise act picks one of the demanded     *)
+(* actions arbitrarily and must not be used).                              *)
+(***************************************************************************)
+RECURSIVE DAsSeq(_)
+DAsSeq(S) == IF S = {} THEN <<>> ELSE LET x == CHOOSE y \in S : TRUE IN <<x>> \o DAsSeq(S \ {x})
+
+DTables(C) ==
+  LET G == C.G
+      LS == LALRStates(C)
+      sq == DAsSeq(LS)
+      n == Len(sq)
+      inv == [I \in LS |-> (CHOOSE k \in 1..n : sq[k] = I) - 1]
+  IN [n |-> n, start |-> inv[LALRStart(C, LS)], cf |-> ConflictFreeIn(G, LS),
+      act |-> [k \in (0..(n - 1)) \X QT(G) |-> ExpectedCell(C, LS, inv, sq[k[1] + 1], k[2])],
+      go |-> [k \in (0..(n - 1)) \X G.nts |->
+                 IF k[2] \in SymsRightOfDot(G, sq[k[1] + 1]) THEN inv[LALRGoto(C, LS, sq[k[1] + 1], k[2])] ELSE -1]]
+
+(***************************************************************************)
 (* A concrete automaton M = [start, states, trans] (0-based numbering,     *)
 (* states a sequence of item sets, trans a set of <<from, sym, to>>) is    *)
 (* the LALR(1) automaton of G up to renumbering.  Since states carry their *)
